@@ -207,6 +207,14 @@ func genLadder(t *rapid.T) Case {
 	return c
 }
 
+func genLongOdd(t *rapid.T) Case {
+	var c Case
+	c.N, c.Clauses = gen.LongOddClauses(t)
+	config(t, &c)
+	c.Family = "long-odd-clauses"
+	return c
+}
+
 // genRestart: instances large enough for the restart policy to fire (n >= 100 at the threshold).
 func genRestart(t *rapid.T) Case {
 	var c Case
@@ -229,6 +237,8 @@ func init() {
 			Rule:    "uniform 3-SAT n in 30..100 (thorough ..150), ratio 4.0..4.6" + tail},
 		vf.Sub[Case]{Name: "long-learned-clauses", Quick: 30, Thorough: 100, Gen: genLadder, Check: check, Floor: 0.2,
 			Rule: "'ladder' formulas: one clause over 30..1100 (sometimes 10 001+) variables, split on a helper, plus an implication chain x_k -> x_k+1 (each split on a helper) with or without 'not x_n', or a single gadget; variables numbered helpers-first/last and ascending/descending: the learned clauses hold hundreds to thousands of literals; the truth (unsat / sat) is known by construction and checked through the model / the independent RUP replay" + tail},
+		vf.Sub[Case]{Name: "long-odd-clauses", Quick: 800, Thorough: 10000, Gen: genLongOdd, Check: check, Floor: 0,
+			Rule: "34..50 variables, 2..4 clauses of 33..n+6 literals drawn with replacement (repeated literals, tautologies) next to 5..25 short clauses; same assertions as small"},
 		vf.Sub[Case]{Name: "restart-prone-3sat", Quick: 50, Thorough: 1200, Gen: genRestart, Check: check, Floor: 0.25,
 			Classes: map[string]float64{"restart>0": 0.04},
 			Rule:    "uniform 3-SAT n in 100..150, ratio 4.0..4.6: hundreds to thousands of conflicts, so that restarts (and clause-database reductions with the lowered limit) happen before the answer" + tail},
